@@ -58,6 +58,7 @@ def families(ctx, quick, thorough):
     yield "recursive-choice", enginea.VCase(ctx.seed, "recursive-choice", src=valgen.recursive_choice_schema())
     yield "recursive-sequence", enginea.VCase(ctx.seed, "recursive-sequence", src=valgen.recursive_sequence_schema())
     yield "xsitype-list", enginea.VCase(ctx.seed, "xsitype-list", src=valgen.xsitype_list_schema())
+    yield "group-content", enginea.VCase(ctx.seed, "group-content", src=valgen.group_content_schema())
     forms = [None, "qualified", "unqualified"]
     grid = [(a, b, c, d) for a in forms for b in forms for c in forms for d in forms]
     if ctx.tier == "quick":
@@ -67,7 +68,7 @@ def families(ctx, quick, thorough):
         yield "forms", enginea.VCase(ctx.seed, "forms-%s-%s-%s-%s" % g, src=valgen.forms_schema(*g))
 
 
-VALUES_PER = {"values": 3, "recursive-choice": 40, "recursive-sequence": 25, "xsitype-list": 30, "forms": 1}
+VALUES_PER = {"group-content": 12, "values": 3, "recursive-choice": 40, "recursive-sequence": 25, "xsitype-list": 30, "forms": 1}
 
 
 def classify_readback(diff):
@@ -92,7 +93,7 @@ def explore(ctx, res, prop, quick=250, thorough=4000):
             continue
         res.programs += 1
         per = VALUES_PER[fam] * (1 if ctx.tier == "quick" or fam in ("values", "forms") else 4)
-        if fam in ("values", "recursive-sequence", "recursive-choice"):
+        if fam in ("values", "recursive-sequence", "recursive-choice", "group-content"):
             aliasing_probe(res, prop, fam, case)
         for j in range(per):
             one_value(ctx, res, prop, fam, case, j, pending)
@@ -329,13 +330,15 @@ def compare_model(ctx, res, pending, prop):
 def run(ctx, prop="C01"):
     res = Result()
     pending = explore(ctx, res, prop)
+    from harness import multidoc
+    multidoc.run_family(res, prop)
     if pending:
         res.sample(dict(xsd=pending[0][2]["xsd"][:600], reference=pending[0][2]["reference"][:400], kwargs=str(pending[0][2]["kwargs"])[:300]))
     res.rule = ("schemas from the section-5 generator, values profile (sequence / choice / all, nested complex types, occurrence bounds incl. "
                 "unbounded, attributes, simpleContent, complexContent extension with xsi:type substitution, list and restriction simple types, "
                 "per-declaration form, nillable, groups, xsd:any) x 3 conforming values each, plus recursive types through a repeated choice "
                 "and a repeated sequence, mixed base/derived lists, and the grid of form defaults x per-declaration forms; values supplied as "
-                "dicts, value objects or a mix. distinct = distinct (schema, reference document); non-trivial = the root has children")
+                "dicts, value objects or a mix; hand-written families outside the grammar (harness/multidoc.py): schemas split over xsd:include with every combination of form defaults in the including and the included document, derivation through complexContent/restriction with xsi:type. distinct = distinct (schema, reference document); non-trivial = the root has children")
     return res
 
 
@@ -373,6 +376,9 @@ def rebuild(c):
 
 def replay(ctx, payload, prop="C01"):
     c = payload.get("case", payload)
+    if c.get("kind") == "multidoc":
+        from harness import multidoc
+        return multidoc.replay(prop, c)
     if c.get("probe") == "aliasing":
         case = rebuild_case(c)
         res = Result()
